@@ -79,7 +79,7 @@ ESC = "\U0001d1c0"
 # --------------------------------------------------------------------------
 
 PLAIN_KEYS = ["a", "b", "c", "d", "k1", "key 2", "x.y", "a'b", 'a"b', "a]b", "[0]", "1", "", "é", "root", "A", "id",
-              "old_type", "new_type", "values_changed"]
+              "old_type", "new_type", "values_changed", "old_value", "new_value", "new_path"]
 HOSTILE_KEYS = ["q'\"", "k" + ESC]
 STRS = ["", "x", "abc", "abd", "line1\nline2\nline3", "line1\nline2\nline4", "int", "str", "NoneType", "é中", "a'b", "True", "1", " "]
 
@@ -198,7 +198,47 @@ def gen_pair(rng):
     return a, b, kinds
 
 
+# JSON-representable alphabets for planted scalar-list edits (1 / True / 1.0 are equal for difflib: kept apart)
+LIST_ALPHABETS = [["a", "b", "c", "d"], [1, 2, 3, 4], ["a", 2, None, 2.5], ["x", "y"], [True, False, None, "t"],
+                  ["p", "q", "a", "b", "c", "x"], [0.5, 1.5, "a", 7], ["a", "b"], [0, 3, "0", "3"]]
+
+
+def plant_json(rng, depth, a, b):
+    """wrap (a, b) identically into `depth` JSON dict/list levels (the difference sits below a common path)"""
+    for _ in range(depth):
+        if rng.random() < 0.5:
+            pre = [gen_scalar(rng) for _ in range(rng.randint(0, 2))]
+            post = [gen_scalar(rng) for _ in range(rng.randint(0, 1))]
+            a, b = copy.deepcopy(pre) + [a] + copy.deepcopy(post), copy.deepcopy(pre) + [b] + copy.deepcopy(post)
+        else:
+            key = rng.choice(["l", "k", "k2", "1", "old_value", "new_value", "a.b"])
+            a, b = {key: a, "z": 0}, {key: b, "z": 0}
+    return a, b
+
+
+def gen_list_pair(rng):
+    """scalar lists related by insert/delete/replace/move/dup/rotate edits (harness.values.gen_atom_list_pair),
+    planted under 0-2 container levels: the shapes on which DeepDiff keeps the difflib opcodes"""
+    from harness import values
+    x, y, kinds = values.gen_atom_list_pair(rng, maxlen=rng.choice([4, 6, 8, 12]), alphabet=rng.choice(LIST_ALPHABETS))
+    if rng.random() < 0.35:
+        # inserts in front of an unchanged run and deletes behind it (removed t1 index = added t2 index, not adjacent)
+        alpha = rng.choice(LIST_ALPHABETS)
+        run = [rng.choice(alpha) for _ in range(rng.randint(1, 5))]
+        x = list(run)
+        for _ in range(rng.randint(1, 2)):
+            x.insert(rng.randint(1, len(x)), "DEL%d" % rng.randrange(3))
+        y = ["INS%d" % i for i in range(rng.randint(1, 3))] + list(run)
+        if rng.random() < 0.3:
+            y.append("TAIL")
+        kinds = ["front_inserts_back_deletes"]
+    a, b = plant_json(rng, rng.choice([0, 1, 1, 2]), x, y)
+    return a, b, ["list:" + k for k in (kinds or ["none"])]
+
+
 FIXED_PAIRS = [
+    ({"l": ["a", "x", "b", "c"]}, {"l": ["p", "q", "a", "b", "c"]}),       # added t2 index == removed t1 index, not adjacent
+    ({"old_value": 1, "new_value": [1, 2]}, {"old_value": 2, "new_value": [2], "new_path": "x"}),
     ({"a": 1, "b": [1, 2, 3]}, {"a": 2, "b": [1, 3], "c": None}),
     ({"a": 1}, [1, 2]),
     ([1, 2, 3], {"a": 1}),
@@ -785,7 +825,7 @@ def pair_task(args):
     table[a_text] = [ida]
     code = make_coder(table)
 
-    plans = schedules(rng, mode)
+    plans = schedules(rng, mode) if mode != "ref" else []
     flagsets = [(k, dbg, pb) for k in (False, True) for dbg in (False, True) for pb in (False,)]
     for plan in plans:
         fl = list(flagsets)
@@ -822,6 +862,7 @@ def pair_task(args):
     if idx < 3:
         res["samples"].append({"A": a_text[:200], "B": b_text[:200], "edit_kinds": kinds, "new_A": new_text[:200],
                                "schedules": len(plans)})
+    count("mode:" + mode)
     count("pairs:docs_equal" if ida == idb else "pairs:docs_differ")
     for k in kinds:
         count("edit:" + k)
@@ -960,6 +1001,12 @@ def run(ctx):
     for i, (a, b, kinds) in enumerate(pairs):
         mode = "all" if i < n_all else ("pairs" if i < n_all + n_pairs_mode else "single")
         tasks.append((i, a, b, a_text_of(a, rng), kinds, mode, rng.randrange(1 << 30), ctx.scratch))
+    # the 'patch reproduces B' clause alone (fault-free diff -> patch round trips through the real CLI) on many more
+    # pairs: planted scalar-list edit scripts + further random document pairs
+    n_ref = 6000 if ctx.thorough else 900
+    for j in range(n_ref):
+        a, b, kinds = gen_list_pair(rng) if j % 3 else gen_pair(rng)
+        tasks.append((len(pairs) + j, a, b, a_text_of(a, rng), kinds, "ref", rng.randrange(1 << 30), ctx.scratch))
     # the long tasks first
     with mp.get_context("fork").Pool(core.NCPU) as pool:
         r_direct = pool.apply_async(direct_task, ((rng.randrange(1 << 30), "all" if ctx.thorough else "single", ctx.scratch),))
@@ -968,7 +1015,7 @@ def run(ctx):
     collect(ctx, results, "c20_cli")
     collect(ctx, [rd], "c20_save_direct")
     ctx.note("fault_points", ["%s/%s" % p for p in POINTS])
-    ctx.note("document_pairs", len(pairs))
+    ctx.note("document_pairs", {"with_fault_schedules": len(pairs), "round_trip_only": n_ref})
     # every open finding must still reproduce on the implementation (otherwise the finding list is stale)
     for f in ctx.findings:
         if f.get("status") == "open" and f["key"] not in ctx.known_seen:
